@@ -95,6 +95,7 @@ B('C07.certificate-validity-read-as-plain-number', ['C07'], [(P + 'ssh/key.py', 
 B('C01.plugin-name-written-when-present', ['C01'], [(P + 'tls/mysql.py', "        if MySQLCapability.CLIENT_PLUGIN_AUTH in self.capabilities:\n            composer.compose_string_null_terminated(self.auth_plugin_name, 'ascii')", "        if self.auth_plugin_name:\n            composer.compose_string_null_terminated(self.auth_plugin_name, 'ascii')")], mention='optional[auth_plugin_name]')
 B('C07.ed448-key-labelled-ed25519', ['C07'], [(P + 'ssh/key.py', "            curve_type = NamedGroup.CURVE448\n", "            curve_type = NamedGroup.CURVE25519\n")], mention='C07.R11')
 N('benign.eddsa-curve-by-key-length', [(P + 'ssh/key.py', "        if parser['host_key_algorithm'].value.signature == Signature.ED448:", "        if len(parser['key_data']) == 57:")])
+B('C07.principals-ascii-only', ['C07'], [(P + 'ssh/key.py', "        parser.parse_string('value', 4, 'utf-8')", "        parser.parse_string('value', 4, 'ascii')")], mention='SshString')
 B('C02.unsupported-width', ['C02'], [(P + 'tls/extension.py', "        parser.parse_numeric('record_size_limit', 2)", "        parser.parse_numeric('record_size_limit', 5)")], props=['C02'])
 B('C02.raw-index', ['C02'], [(P + 'tls/extension.py', "        if parser['extension_data']:\n            raise InvalidValue(parser['extension_data'], cls)",
                              "        if parser['extension_data'][0]:\n            raise InvalidValue(parser['extension_data'], cls)")])
